@@ -144,6 +144,7 @@ static void iniExecution(Rng& rng, Log& log, const TmpDir& tmp, bool avoidLast)
 	{
 		fprintf(stderr, "VREC-FAIL: %s\n", r.problem.c_str());
 		fflush(stderr);
+		rmTree(tmp.path);
 		_exit(3);
 	}
 }
@@ -206,6 +207,7 @@ static void csvExecution(Rng& rng, Log& log, const TmpDir& tmp, bool avoidTiny)
 	{
 		fprintf(stderr, "VREC-FAIL: %s\n", r.problem.c_str());
 		fflush(stderr);
+		rmTree(tmp.path);
 		_exit(3);
 	}
 }
